@@ -849,7 +849,7 @@ class Plucker(SMUserList):
             # P = -(np.cross(line.v, plane.n) + plane.d * line.w) / den
             p = (np.cross(self.v, plane.n) - plane.d * self.w) / den
             
-            t = np.dot( self.pp - p, plane.n)
+            t = np.dot(p - self.pp, self.uw)  # parameter such that point(t) == p
             return namedtuple('intersect_plane', 'p lam')(p, t)
         else:
             return None
